@@ -54,9 +54,11 @@ pub fn blocks(thorough: bool) -> Vec<Block> {
     let bases7 = [0, X, I, R, D, W, G];
     let mut b = vec![];
     if !thorough {
-        b.push(Block::new(Universe::new("U_ab3{a,b}", &["a", "b"], 3, 0, true), anch(&[0, R]), "{na,ne,na+ne} x {{}, r}"));
-        b.push(Block::new(Universe::new("U_abc2{a,b,c}", &["a", "b", "c"], 2, 0, true), anch(&bases7), "{na,ne,na+ne} x {{},x,i,r,d,w,g}"));
-        b.push(Block::new(Universe::new("U_adv(units)", &units, 2, 3, false), anch(&[0, R]), "{na,ne,na+ne} x {{}, r}"));
+        b.push(Block::new(Universe::new("U_ab3{a,b}", &["a", "b"], 3, 0, false), anch(&[0, R]), "{na,ne,na+ne} x {{}, r}"));
+        b.push(Block::new(Universe::new("U_ab3{a,b}", &["a", "b"], 3, 3, true), anch(&[R]), "{na,ne,na+ne} x r"));
+        b.push(Block::new(Universe::new("U_abc2{a,b,c}", &["a", "b", "c"], 2, 3, true), anch(&bases7), "{na,ne,na+ne} x {{},x,i,r,d,w,g}"));
+        b.push(Block::new(Universe::new("U_adv(units)", &units, 2, 2, false), anch(&[0, R, X]), "{na,ne,na+ne} x {{}, r, x}"));
+        b.push(Block::new(Universe::new("U_adv(units)", &units, 1, 4, false), anch(&[0, R, I, W]), "{na,ne,na+ne} x {{}, r, i, w}"));
         b.push(Block::new(Universe::new("U_a1A{a,1,A}", &["a", "1", "A"], 2, 3, true), anch(&[D, W, I, D | I | R]), "{na,ne,na+ne} x {d,w,i,d+i+r}"));
     } else {
         let b2: Vec<u32> = lattice_le(0, ALL_BITS & !(NA | NE | U | C), 2).iter().map(|c| c.bits).collect();
